@@ -37,7 +37,8 @@ Alpha2(G)       == ~\E S \in SUBSET Verts(G.n) : Cardinality(S) = 3 /\ \A a, b \
 CMulti(G)       == ~\E a, b, c \in Verts(G.n) : a # b /\ a # c /\ Adj(G, b, c) /\ ~Adj(G, a, b) /\ ~Adj(G, a, c)
 Cograph(G)      == ~\E a, b, c, d \in Verts(G.n) : Cardinality({a, b, c, d}) = 4 /\ Adj(G, a, b) /\ Adj(G, b, c) /\ Adj(G, c, d)
                                                       /\ ~Adj(G, a, c) /\ ~Adj(G, a, d) /\ ~Adj(G, b, d)
-Holds(pred, G) == CASE pred = "alpha2" -> Alpha2(G) [] pred = "cmulti" -> CMulti(G) [] pred = "cograph" -> Cograph(G) [] pred = "trianglefree" -> TriangleFree(G) [] pred = "maxdeg2" -> MaxDeg2(G) [] pred = "maxdeg1" -> MaxDeg1(G) [] pred = "k4free" -> K4Free(G)
+Holds(pred, G) == CASE pred = "alpha2" -> Alpha2(G) [] pred = "cmulti" -> CMulti(G) [] pred = "cograph" -> Cograph(G) [] pred = "trianglefree" -> TriangleFree(G) [] pred = "maxdeg2" -> MaxDeg2(G) [] pred = "maxdeg1" -> MaxDeg1(G) [] pred = "nothing" -> FALSE [] pred = "order0" -> G.n <= 0 [] pred = "order1" -> G.n <= 1
+                    [] pred = "order2" -> G.n <= 2 [] pred = "maxedges3" -> NumEdges(G) <= 3 [] pred = "k4free" -> K4Free(G)
                     [] pred = "clawfree" -> ClawFree(G) [] pred = "bipartite" -> Bipartite(G) [] pred = "forest" -> Forest(G) [] OTHER -> TRUE
 
 (* closed forms for two predicates, usable at sizes where the classes cannot be enumerated by TLC:                                 *)
@@ -47,7 +48,8 @@ CompSizes(n) == [i \in 1..(2 * n - 2) |-> IF i <= n THEN i ELSE i - n + 2]      
 RECURSIVE Ways(_, _, _)
 Ways(sz, i, r) == IF r = 0 THEN 1 ELSE IF i > Len(sz) THEN 0
                   ELSE FoldSet(LAMBDA c, a : a + Ways(sz, i + 1, r - c * sz[i]), 0, 0..(r \div sz[i]))
-ClassCount(pred, n) == IF pred = "maxdeg1" THEN n \div 2 + 1 ELSE IF n < 2 THEN 1 ELSE Ways(CompSizes(n), 1, n)
+(*  at most 3 edges, n >= 6: the edgeless graph, K2, P3, 2K2, K3, P4, K1,3, P3+K2, 3K2 (each padded with isolated vertices)                   *)
+ClassCount(pred, n) == IF pred = "maxdeg1" THEN n \div 2 + 1 ELSE IF pred = "maxedges3" THEN 9 ELSE IF n < 2 THEN 1 ELSE Ways(CompSizes(n), 1, n)
 
 AllYields(e) == UNION { { e.yields[a][k] : k \in 1..Len(e.yields[a]) } : a \in 1..Len(e.yields) }
 Total(e)     == FoldLeft(LAMBDA s, sh : s + Len(sh), 0, e.yields)
@@ -78,7 +80,7 @@ JudgeBig(e) ==
     ELSE IF \E i \in 1..Len(e.dups) : LET d == e.dups[i] IN IsPermSeq(d.p, n) /\ d.a.e # d.b.e /\ Relabel(GofY(n, d.a), d.p) = GofY(n, d.b)
          THEN "two yielded graphs are isomorphic (witness permutation checked)"
     ELSE IF e.counts[1] # e.counts[2] \/ e.counts[1] # e.counts[3] THEN "preprune, prune and sharded searches yield different numbers of graphs"
-    ELSE IF e.pred \in {"maxdeg1", "maxdeg2"} /\ e.counts[1] # ClassCount(e.pred, n) THEN "the pruned search does not yield as many graphs as there are classes satisfying the predicate (closed form)"
+    ELSE IF (e.pred \in {"maxdeg1", "maxdeg2"} \/ (e.pred = "maxedges3" /\ n >= 6)) /\ e.counts[1] # ClassCount(e.pred, n) THEN "the pruned search does not yield as many graphs as there are classes satisfying the predicate (closed form)"
     ELSE ""
 
 TInit == l = 1 /\ bad = <<>> /\ dead = FALSE /\ reps = {}
